@@ -18,5 +18,6 @@ CONSTANTS NRows = 2
  BLCK = 1
  tWRdev = 1
 INVARIANT Legal
+PROPERTY RefinesAbstractBm
 VIEW View
 CHECK_DEADLOCK FALSE
